@@ -1,7 +1,10 @@
 //! C19 (first half): drives the public TimeoutLayer around a scripted inner service under
 //! tokio's paused clock.
 //!
-//! case line: <d ms> <p0 ms> <ti ms|-> <O<v>|E<e>> [<handover 0|1>]
+//! case line: <d ms> <p0 ms> <ti ms|-> <O<v>|E<e>> [<handover 0|1>] [B]
+//!   B: the same deadline through the public client Builder (`Client::builder().with_timeout(d)`) over the in-process duplex
+//!   transport against a server whose handler answers after ti (never for '-'); p0 and handover do not apply; the instant
+//!   at which the inner future was dropped is not observable there ('-')
 //!   handover 1: the first poll (at p0) is made by hand with a throw-away waker; the future is then awaited by the
 //!   main task (another waker), which only polls it when woken
 //! output:    <INNER O<v>|INNER E<e>|TIMEOUT|HANG|PANIC> <resolved at ms|-> <inner dropped at ms|-> <inner polls after drop/ready: 0>
@@ -72,8 +75,61 @@ impl Service<()> for Svc {
     }
 }
 
+type BoxError = Box<dyn std::error::Error + Send + Sync + 'static>;
+
+async fn answer(ti: Option<u64>, v: u64, _req: http::Request<hyperdriver::Body>) -> Result<http::Response<hyperdriver::Body>, BoxError> {
+    match ti {
+        Some(t) => tokio::time::sleep(Duration::from_millis(t)).await,
+        None => std::future::pending::<()>().await,
+    }
+    Ok(http::Response::new(hyperdriver::Body::from(v.to_string())))
+}
+
+fn run_builder(d: Duration, ti: Option<u64>, v: u64) -> String {
+    use hyperdriver::client::conn::transport::duplex::DuplexTransport;
+    use hyperdriver::server::conn::Acceptor;
+    let rt = tokio::runtime::Builder::new_current_thread().enable_time().start_paused(true).build().unwrap();
+    rt.block_on(async move {
+        let (client_end, incoming) = hyperdriver::stream::duplex::pair();
+        let make = hyperdriver::service::make_service_fn(move |_: &<Acceptor as hyperdriver::server::conn::Accept>::Conn| async move {
+            Ok::<_, std::io::Error>(tower::service_fn(move |req: http::Request<hyperdriver::Body>| answer(ti, v, req)))
+        });
+        let server = hyperdriver::server::Server::builder::<hyperdriver::Body>()
+            .with_acceptor(Acceptor::from(incoming))
+            .with_protocol(hyperdriver::server::conn::http1::Builder::new())
+            .with_make_service(make)
+            .with_tokio();
+        let srv = tokio::spawn(async move {
+            let _ = std::future::IntoFuture::into_future(server).await;
+        });
+        let mut client: hyperdriver::Client = hyperdriver::Client::builder()
+            .with_transport(DuplexTransport::new(1 << 16, client_end))
+            .with_auto_http()
+            .with_pool(Default::default())
+            .with_timeout(d)
+            .build();
+        let base = Instant::now();
+        let req = http::Request::builder().uri("http://a.test/").body(hyperdriver::Body::empty()).unwrap();
+        let r = tokio::time::timeout(Duration::from_millis(50_000_000), client.request(req)).await;
+        let at = (Instant::now() - base).as_millis();
+        srv.abort();
+        match r {
+            Err(_) => "HANG - - 0".to_string(),
+            Ok(Ok(_)) => format!("INNER O{} {} - 0", v, at),
+            Ok(Err(hyperdriver::client::Error::RequestTimeout)) => format!("TIMEOUT {} - 0", at),
+            Ok(Err(e)) => format!("INNER E{} {} - 0", format!("{e:?}").len() % 7, at),
+        }
+    })
+}
+
 fn run_case(line: &str) -> String {
     let f: Vec<&str> = line.split_whitespace().collect();
+    if f.get(5) == Some(&"B") {
+        let d: u128 = f[0].parse().unwrap();
+        let d = Duration::new((d / 1000) as u64, ((d % 1000) * 1_000_000) as u32);
+        let ti: Option<u64> = if f[2] == "-" { None } else { Some(f[2].parse().unwrap()) };
+        return run_builder(d, ti, f[3][1..].parse().unwrap());
+    }
     // d may exceed u64 milliseconds (Duration::MAX is about 1.8e22 ms)
     let d: u128 = f[0].parse().unwrap();
     let d = Duration::new((d / 1000) as u64, ((d % 1000) * 1_000_000) as u32);
